@@ -130,6 +130,9 @@ pub fn sendmail(mode: &str, from: &str, tos: &str, msg: &str) -> String {
         "ignore" => "exit 0",
         "failignore" => "echo 'diagnostic: refused' >&2\nexit 1",
         "badstderr" => "cat > \"$n.stdin\"\nprintf '\\377\\376' >&2\nexit 1",
+        // a program that talks a lot (sendmail -v, a logging wrapper): more than a pipe holds, on both streams, before and after reading the message
+        "chatty" => "head -c 300000 /dev/zero | tr '\\0' 'v'\nhead -c 300000 /dev/zero | tr '\\0' 'e' >&2\ncat > \"$n.stdin\"\nhead -c 300000 /dev/zero | tr '\\0' 'w'\nexit 0",
+        "chattyfail" => "head -c 300000 /dev/zero | tr '\\0' 'e' >&2\ncat > \"$n.stdin\"\nhead -c 300000 /dev/zero | tr '\\0' 'v'\necho 'diagnostic: no such user' >&2\nexit 67",
         _ => "exit 0",
     };
     let script = d.join("fake-sendmail");
